@@ -25,7 +25,7 @@ REQUIRED = ["Sqfs.C15.ostream_transparent", "Sqfs.C15.ostream_transparent_single
             "Sqfs.C15.istream_transparent", "Sqfs.C15.truncated_is_error", "Sqfs.C15.process_data_meets_contract_partial",
             "Sqfs.C15.backend_ostream_transparent", "Sqfs.C15.backend_istream_transparent", "Sqfs.C15.backend_truncated_is_error",
             "Sqfs.C15.toy_library_meets_convention", "Sqfs.C15.toy_encoder_meets_contract", "Sqfs.C15.toy_decoder_meets_contract",
-            "Sqfs.C15.toy_decode_encode"]
+            "Sqfs.C15.toy_decode_encode", "Sqfs.C15.probe_spec"]
 CODECS = ["gzip", "xz", "bzip2", "zstd"]
 MAGIC_LEN = {"gzip": 3, "xz": 6, "zstd": 4, "bzip2": 3}
 JOBS = int(os.environ.get("VERIF_JOBS", "3"))       # parallel tool runs (the machine may be shared)
@@ -566,6 +566,65 @@ def wrapper_part(ctx):
     return stats
 
 
+# ------------------------------------------------------------------------------------------------ probing (c)
+def probe_part(ctx):
+    """tar_open_stream's decision (plain / wrap in which decompressor) and the magic table, real code vs model"""
+    lib = ctx.build_lib()
+    exe = ctx.cc("h_c15p", ["h_c15p.c", str(lib)], libs=vlib.CODEC_LIBS)
+    rng = ctx.rng
+    magics = [bytes([0x1F, 0x8B, 0x08]), bytes([0xFD, 0x37, 0x7A, 0x58, 0x5A, 0x00]), bytes([0x28, 0xB5, 0x2F, 0xFD]), b"BZh"]
+    datas = [b"", b"\0", b"\0" * 511, b"\0" * 512, b"\0" * 1024]
+    for m in magics:
+        for k in range(len(m) + 1):
+            datas.append(m[:k]); datas.append(m[:k] + b"\x39\x00\xff")
+            if k < len(m):
+                datas.append(m[:k] + bytes([m[k] ^ 1]) + m[k + 1:] + b"zz")
+        datas.append(b"\0" * 512 + m + b"rest")
+        datas.append(m + b"\0" * 300 + b"ustar" + b"\0" * 300)
+    def ustar_at(off, total, fill=b"x"):
+        b = bytearray(fill * total)
+        b[off:off + 5] = b"ustar"
+        return bytes(b[:total])
+    for off in (0, 256, 257, 258, 257 + 512):
+        for total in (261, 262, 263, 512, 600, 1024, 1100):
+            if off + 5 <= total:
+                datas.append(ustar_at(off, total)); datas.append(ustar_at(off, total, b"\0"))
+                datas.append(b"\0" * 512 + ustar_at(off, total)[: max(0, total - 512)])
+    datas.append(magics[0] + ustar_at(257, 600)[3:])          # gzip magic *and* ustar at 257: plain wins
+    for _ in range(300 if ctx.quick() else 5000):
+        n = rng.choice([0, 1, 3, 6, 262, 511, 512, 513, 769, 774, 1024])
+        b = bytearray(rng.choice([0, 0, 0x75, rng.randrange(256)]) for _ in range(n))
+        if rng.random() < 0.5 and n >= 3:
+            m = rng.choice(magics); b[:len(m)] = m[:n]
+        if rng.random() < 0.4 and n >= 262:
+            b[257:262] = b"ustar"
+        if rng.random() < 0.3 and n >= 512:
+            b[:512] = b"\0" * 512
+            if n >= 512 + 262 and rng.random() < 0.5:
+                b[512 + 257:512 + 262] = b"ustar"
+        datas.append(bytes(b))
+    lines = []
+    for d in datas:
+        lines.append("magic " + tok(d)); lines.append("probe " + tok(d))
+    impl = run_lines(ctx, exe, lines)
+    model = ctx.driver(["c15"], "\n".join(lines) + "\n")
+    bad = 0
+    kinds = {}
+    for l, i, m in zip(lines, impl, model):
+        kinds[i.split()[0] if l.startswith("probe") else "magic"] = kinds.get(i.split()[0] if l.startswith("probe") else "magic", 0) + 1
+        if i != m:
+            bad += 1
+            if bad <= 3:
+                # specification of the probing: an archive with `ustar` in the right place is never taken for compressed data, and
+                # a stream that starts with a codec's magic (and is not a tar header) is unwrapped with that codec
+                d = untok(l.split()[1])
+                spec_bad = l.startswith("probe") and any(d.startswith(mg) for mg in magics) and b"ustar" not in d and i == "plain"
+                report(ctx, ("probe:" if spec_bad else "corr:probe:") + vlib.sha(l)[:10],
+                       "tar_open_stream / magic detection: impl=%s model=%s on %s" % (i, m, l[:80]),
+                       {"harness": "h_c15p", "probe_line": l, "impl": i, "model": m}, found_input=spec_bad)
+    return {"lines": len(lines), "disagreements": bad, "decisions": kinds}
+
+
 # ------------------------------------------------------------------------------------------------ tools (b)
 def mk_tar(files, end_padding=1024):
     bio = io.BytesIO()
@@ -885,16 +944,18 @@ def run(ctx):
     wstats = wrapper_part(ctx)
     ctx.log("wrappers over fake libraries: %d call sequences, %d disagreements (%d behave like the unpatched loops)" % (
         wstats["scenarios"], wstats["disagreements"], wstats["unpatched_behaviour"]))
+    pstats = probe_part(ctx)
+    ctx.log("probing: %d inputs, %d disagreements" % (pstats["lines"], pstats["disagreements"]))
     tstats, tsamples = tool_part(ctx, bufsz)
     ctx.log("tools: %d tar2sqfs runs, %d sqfs2tar runs" % (tstats["tar2sqfs_runs"], tstats["sqfs2tar_runs"]))
     ctx.cov.update({
-        "evaluations": fstats["scenarios"] + wstats["scenarios"] + tstats["tar2sqfs_runs"] + tstats["sqfs2tar_runs"],
+        "evaluations": fstats["scenarios"] + wstats["scenarios"] + pstats["lines"] + tstats["tar2sqfs_runs"] + tstats["sqfs2tar_runs"],
         "distinct_nontrivial": fstats["nontrivial"] + sum(v for k, v in tstats["by_class"].items() if k != "single"),
         "rule": "fake-codec scenarios: operation sequences on the real ostream_xfrm / chunking+reader scripts on the real istream_xfrm, at BUFSZ in "
                 "%s; non-trivial = more data than one buffer, or a truncated/garbage/damaged stream. Tool runs: tar2sqfs on generated "
                 "archives (one multi-file, others sized k*BUFSZ +-512 with incompressible/compressible bytes) wrapped by the reference "
                 "compressors in the listed variants; sqfs2tar -c X expanded by the reference decompressors; non-trivial = every variant other than the plain single stream" % sorted(fstats["by_bufsz"]),
-        "fake_codec": fstats, "backend_loops": wstats, "tools": tstats,
+        "fake_codec": fstats, "backend_loops": wstats, "probing": pstats, "tools": tstats,
         "samples": fsamples + tsamples,
         "disagreements_checked": fstats["disagreements"] + wstats["disagreements"],
         "bufsz": bufsz,
@@ -931,6 +992,13 @@ def replay(ctx, path):
         model = ctx.driver(["c15"], rp["wrap_line"] + "\n")
         print("impl :", impl[0][:600]); print("model:", model[0][:600])
         return 0 if same_trace(impl[0], model[0]) else 1
+    if "probe_line" in rp:
+        ctx.lean_build(["sqfsmodel"])
+        exe = ctx.cc("h_c15p", ["h_c15p.c", str(ctx.build_lib())], libs=vlib.CODEC_LIBS)
+        impl = run_lines(ctx, exe, [rp["probe_line"]], timeout=300)
+        model = ctx.driver(["c15"], rp["probe_line"] + "\n")
+        print("impl :", impl[0]); print("model:", model[0])
+        return 0 if impl[0] == model[0] else 1
     if rp.get("tool") == "tar2sqfs" and rp.get("input_hex"):
         T = Tools(ctx)
         data = untok(rp["input_hex"])
